@@ -315,3 +315,7 @@ type WaitCloser interface {
 
 func (a *muxQ) WaitClose(ctx context.Context) error { return a.q.WaitClose(ctx) }
 func (a *mQ) WaitClose(ctx context.Context) error   { return a.q.WaitClose(ctx) }
+
+// WaitClear blocks until the closed and drained queue has been declared clear (TryClear returned true).
+func (a *mQ) WaitClear(ctx context.Context) error { return a.q.WaitClear(ctx) }
+func (a *mQ) IsCleared() bool                     { return a.q.IsCleared() }
